@@ -238,6 +238,7 @@ pub struct AgentFeatures {
     pub clamped_low: u64,
     pub clamped_high: u64,
     pub momentum_saturated: u64,
+    pub momentum_imposed_updates: u64,
 }
 
 fn is_market(o: &OrderRec) -> bool {
@@ -481,8 +482,46 @@ fn run_agent_inner(c: &AgentCase, feat: &mut AgentFeatures) -> Result<(), Failur
     Ok(())
 }
 
+/// For a momentum case: the same agent parameters on a mid-price path IMPOSED by harness quotes (C17's
+/// machinery), with the decay snapped to a dyadic value half of the time, so that the signal returns to
+/// exactly zero, stays saturated through still steps, etc. Only the activity clauses of C16 are taken from
+/// it (nothing at probability 0, one order per trader at probability >= 1, side given by the sign).
+fn momentum_activity_on_imposed_path(c: &AgentCase) -> Result<u64, Failure> {
+    let AgentSpec::Momentum { n, p_cancel, trade_vol, decay_milli, demand_milli, scale_milli, ratio_milli, mu_milli, sigma_milli } = &c.spec else { return Ok(0) };
+    let mut p = 0i16;
+    let mut path: Vec<i16> = vec![0];
+    for mv in c.quote_moves.iter() {
+        p = (p + *mv as i16).clamp(-150, 150);
+        path.push(p);
+        if *mv == 0 {
+            path.push(p); // a still step
+        }
+    }
+    let decay = match decay_milli % 8 { 0 => 500, 1 => 250, 2 => 750, 3 => 125, _ => *decay_milli };
+    let mc = MomCase { market: c.market, asset: c.asset, tick: c.tick, level_k: c.mid_k.clamp(500, 90_000), path, widen: vec![], n: *n, p_cancel: *p_cancel, trade_vol: *trade_vol, decay_milli: decay, demand_milli: *demand_milli, scale_milli: *scale_milli, ratio_milli: *ratio_milli, mu_milli: *mu_milli, sigma_milli: *sigma_milli, seed: c.id_start as u64 ^ ((c.mid_k as u64) << 32) };
+    let (classes, _, res) = run_mom(&mc);
+    let updates = classes.iter().find(|x| x.0 == "updates").map_or(0, |x| x.1);
+    match res {
+        Err(f) if f.sig.contains("while momentum") || f.sig.contains("at saturated demand") => Err(Failure::new("C16", "C16 momentum agent's activity contradicts its documented probability", format!("on an imposed mid-price path ({:?}): {} - {}", mc, f.sig, f.msg))),
+        _ => Ok(updates),
+    }
+}
+
 pub fn outcome_c16(c: &AgentCase) -> Outcome {
-    match guarded("C16", || run_agent_case(c)) {
+    match guarded("C16", || {
+        let (f, res) = run_agent_case(c);
+        match res {
+            Ok(()) => match momentum_activity_on_imposed_path(c) {
+                Ok(n) => {
+                    let mut f = f;
+                    f.momentum_imposed_updates = n;
+                    (f, Ok(()))
+                }
+                Err(e) => (f, Err(e)),
+            },
+            e => (f, e),
+        }
+    }) {
         Ok((f, res)) => {
             let kinds = f.kinds.count_ones();
             Outcome {
@@ -498,6 +537,7 @@ pub fn outcome_c16(c: &AgentCase) -> Outcome {
                     ("buy_price_clamped_to_0", f.clamped_low),
                     ("sell_price_clamped_to_top_of_grid", f.clamped_high),
                     ("momentum_updates_at_saturated_demand", f.momentum_saturated),
+                    ("momentum_updates_on_imposed_paths", f.momentum_imposed_updates),
                 ],
                 result: res.err(),
             }
